@@ -415,6 +415,29 @@ pub fn run(ctx: &Ctx) -> Outcome {
             co
         });
     }
+    // the width of a stroke is a user-space quantity: under a transform that stretches most in a direction that is not
+    // the image of an axis, a stroke whose path lies outside the surface still reaches in (C04's region oracle)
+    run_cases(ctx, &mut out, SubSpec { name: "stroke_width_under_stretching_transforms", cases: ctx.n(3_000, 60_000), exhaustive: false, max_secs: secs / 2. }, |i, want, st| {
+        let mut rng = ctx.rng("stroke_width_under_stretching_transforms", i);
+        let mut co = CaseOut::default();
+        let c = match super::c04::gen_reaching_in_case(&mut rng) {
+            Some(c) => c,
+            None => return co,
+        };
+        co.hash = crate::prng::hash_str(&format!("{:?}{:?}{:?}", c.path, c.style, c.t));
+        if !super::c04::well_conditioned(&c.path, &c.t) {
+            return co;
+        }
+        let (res, skipped) = super::c04::run_stroke_case(&c, st);
+        co.nontrivial = !skipped && res.inside > 0 && res.outside > 0;
+        if let Some(v) = res.violation {
+            co.viol("C11", format!("stroke under T={}: {}", transform_str(&c.t), v));
+        }
+        if want || !co.violations.is_empty() {
+            co.desc = Some(super::c04::case_desc(&c));
+        }
+        co
+    });
     run_cases(ctx, &mut out, SubSpec { name: "singular_transform_draws_nothing", cases: ctx.n(60_000, 1_000_000), exhaustive: false, max_secs: secs / 2. }, |i, want, st| {
         let mut rng = ctx.rng("singular_transform_draws_nothing", i);
         let w = rng.int(1, 16) as i32;
